@@ -13,8 +13,15 @@ import (
 	"regexp"
 	"strconv"
 	"strings"
+	"time"
 	"unicode/utf8"
 )
+
+type reflectIter struct {
+	it  *MapIter
+	mt  types.Type
+	cur *MapEntry
+}
 
 type nativeModel func(in *Interp, caller *frame, args []Value) (Value, bool)
 
@@ -207,6 +214,53 @@ func init() {
 		},
 		"crypto/x509.NewCertPool": func(in *Interp, fr *frame, a []Value) (Value, bool) {
 			return PtrV{in.newCell(Opaque{Kind: "certpool", Obj: &[]string{}})}, true
+		},
+		"(reflect.Value).MapRange": func(in *Interp, fr *frame, a []Value) (Value, bool) {
+			iv := in.unwrapReflectValue(a[0])
+			m, ok := iv.V.(*MapV)
+			if !ok {
+				in.goPanic("reflect: MapRange of non-map")
+			}
+			it := &MapIter{M: m, StartSeq: m.seq, Visited: map[*MapEntry]bool{}}
+			return PtrV{in.newCell(Opaque{Kind: "reflect.MapIter", Obj: &reflectIter{it: it, mt: iv.T}})}, true
+		},
+		"(*reflect.MapIter).Next": func(in *Interp, fr *frame, a []Value) (Value, bool) {
+			ri := a[0].(PtrV).R.Get().(Opaque).Obj.(*reflectIter)
+			ri.cur = nil
+			if ri.it.M.Nil {
+				return in.tf.F, true
+			}
+			for _, e := range ri.it.M.Entries {
+				if !e.Deleted && !ri.it.Visited[e] {
+					ri.it.Visited[e] = true
+					ri.cur = e
+					return in.tf.T, true
+				}
+			}
+			return in.tf.F, true
+		},
+		"(*reflect.MapIter).Key": func(in *Interp, fr *frame, a []Value) (Value, bool) {
+			ri := a[0].(PtrV).R.Get().(Opaque).Obj.(*reflectIter)
+			mt := ri.mt.Underlying().(*types.Map)
+			return Opaque{Kind: "reflect.Value", Obj: Iface{T: mt.Key(), V: ri.cur.K}}, true
+		},
+		"(*reflect.MapIter).Value": func(in *Interp, fr *frame, a []Value) (Value, bool) {
+			ri := a[0].(PtrV).R.Get().(Opaque).Obj.(*reflectIter)
+			mt := ri.mt.Underlying().(*types.Map)
+			return Opaque{Kind: "reflect.Value", Obj: Iface{T: mt.Elem(), V: ri.cur.V}}, true
+		},
+		"(reflect.Value).Interface": func(in *Interp, fr *frame, a []Value) (Value, bool) {
+			return in.unwrapReflectValue(a[0]), true
+		},
+		"time.Parse": func(in *Interp, fr *frame, a []Value) (Value, bool) {
+			l := in.forceConc(a[0].(*Str), "time.Parse")
+			v := in.forceConc(a[1].(*Str), "time.Parse")
+			_, err := time.Parse(l, v)
+			zt := in.zero(in.W.ssaPkgs["time"].Type("Time").Type())
+			if err != nil {
+				return Tuple{zt, in.newError(err.Error())}, true
+			}
+			return Tuple{zt, Iface{}}, true
 		},
 		"io.ReadAll": func(in *Interp, _ *frame, a []Value) (Value, bool) {
 			r := a[0].(Iface)
